@@ -1175,6 +1175,10 @@ class OEvaluator(Evaluator):
             raise Unsupported(f"attribute .{attr} of a struct.Struct")
         if isinstance(v, (str, bytes, bytearray, int, list, dict, tuple, float, set, frozenset, __import__("io").BytesIO, __import__("io").StringIO, __import__("io").BufferedReader, __import__("re").Pattern, __import__("re").Match) + _MEMORY_STREAMS) and not isinstance(v, bool):
             return _PyMethod(v, attr)
+        if v is None or isinstance(v, bool):
+            if hasattr(v, attr):
+                raise Unsupported(f"attribute .{attr} of {v!r}")
+            raise PyRaise("AttributeError")  # 'NoneType' object has no attribute ...
         raise Unsupported(f"attribute .{attr} of a {type(v).__name__}")
 
     # ---- calls
